@@ -194,7 +194,8 @@ def op_per_chunk(arg):
             for g in groups:
                 st.make("0", "mapped", chunk_number={"src": list(g)}, processor=processor, progress_bar=False)
             st.merge_per_chunk_storage("0", "mapped", "src", chunk_number_group=[list(g) for g in groups], rechunk=False)
-        ddir = find_dir(d1, "mapped")
+        # the merged data lives under the plain key (the per-chunk pieces stay next to it under their own keys)
+        ddir = os.path.join(d1, str(st.key_for("0", "mapped")))
         o, meta = observe("per_chunk", before, before, ddir, False)
         extra = []
         x = ctx([d1], n).get_array("0", "mapped", progress_bar=False)
